@@ -47,6 +47,8 @@ func randPolicy(r *Rng) simrt.Policy {
 		return simrt.Policy{Kind: simrt.PolReverse}
 	case 3:
 		return simrt.Policy{Kind: simrt.PolRotate, Seed: uint64(1 + r.Intn(5))}
+	case 4, 5:
+		return simrt.Policy{Kind: simrt.PolPerRange, Seed: r.U64() >> 8}
 	default:
 		return simrt.Policy{Kind: simrt.PolHash, Seed: r.U64() >> 8}
 	}
@@ -90,6 +92,16 @@ func GenC07(seed, index uint64) *Workload {
 	for i := 0; i < nexpr; i++ {
 		w.Exprs = append(w.Exprs, specOf(GenExpr(r.Fork(100+uint64(i)), bias)))
 	}
+	nexpr = addTextVariants(r, w, nexpr)
+	storm := r.P(1, 10)
+	if storm {
+		// compile storm: many clients compiling many different texts at once
+		ntasks = 4 + r.Intn(4)
+		for i := nexpr; i < 10+r.Intn(8); i++ {
+			w.Exprs = append(w.Exprs, specOf(GenExpr(r.Fork(200+uint64(i)), Bias{Enum: 10, Lits: 40, Fail: 3, Let: 10, Unsafe: 50})))
+		}
+		nexpr = len(w.Exprs)
+	}
 	// at least one shared expression in most runs
 	for i := 0; i < nexpr; i++ {
 		if i == 0 && r.P(9, 10) || r.P(1, 2) {
@@ -106,6 +118,9 @@ func GenC07(seed, index uint64) *Workload {
 	}
 	for t := 0; t < ntasks; t++ {
 		nops := 1 + r.Intn(4)
+		if storm {
+			nops = 3 + r.Intn(5)
+		}
 		var ops []Op
 		for k := 0; k < nops; k++ {
 			e := r.Intn(nexpr)
@@ -113,7 +128,7 @@ func GenC07(seed, index uint64) *Workload {
 			switch {
 			case isShared(e) && r.P(3, 4):
 				op.K = "esearch"
-			case r.P(1, 2):
+			case !storm && r.P(1, 2):
 				op.K = "search"
 			case r.P(1, 8):
 				op.K = "mustcompile"
@@ -143,6 +158,7 @@ func GenC06(seed, index uint64, maxOps int) *Workload {
 	for i := 0; i < nexpr; i++ {
 		w.Exprs = append(w.Exprs, specOf(GenExpr(r.Fork(100+uint64(i)), bias)))
 	}
+	nexpr = addTextVariants(r, w, nexpr)
 	nops := 4 + r.Intn(maxOps-3)
 	var ops []Op
 	nslots := 0
@@ -210,9 +226,32 @@ func GenC15(seed, index uint64) *Workload {
 	w.Policies = []simrt.Policy{
 		{Kind: simrt.PolSorted}, {Kind: simrt.PolReverse},
 		{Kind: simrt.PolRotate, Seed: uint64(1 + r.Intn(4))},
-		{Kind: simrt.PolHash, Seed: r.U64() >> 8}, {Kind: simrt.PolHash, Seed: r.U64() >> 8},
+		{Kind: simrt.PolHash, Seed: r.U64() >> 8}, {Kind: simrt.PolPerRange, Seed: r.U64() >> 8},
 		{Kind: simrt.PolNative},
 	}
 	w.Sched = simrt.Schedule{Kind: simrt.StratExplicit, Seed: r.U64()}
 	return w
+}
+
+// addTextVariants sometimes adds the same expression text again, padded with
+// white space the grammar accepts (space, tab, newline, carriage return) or
+// with Unicode space characters it does not accept.
+func addTextVariants(r *Rng, w *Workload, nexpr int) int {
+	if !r.P(1, 4) {
+		return nexpr
+	}
+	base := w.Exprs[r.Intn(nexpr)].Text
+	pads := []string{" ", "\t", "\n", "\r\n ", "\f", "\v", "\u0085", "\u00a0", "\u2003", "\u3000"}
+	n := 1 + r.Intn(2)
+	for i := 0; i < n; i++ {
+		t := base
+		if r.P(2, 3) {
+			t = pick(r, pads) + t
+		}
+		if r.P(2, 3) {
+			t = t + pick(r, pads)
+		}
+		w.Exprs = append(w.Exprs, ExprSpec{Text: t, Tree: &Expr{K: KRaw, S: t}})
+	}
+	return len(w.Exprs)
 }
